@@ -53,7 +53,38 @@ STUBSETS['tools'] = [
     ('std::vec::Vec::<T>::new', '$P::stubs::s_vec_new'),
 ]
 
+STUBSETS['pipe'] = [
+    ('$PROFILES::common::normalization_form_nfc', '$P::stubs::sp_nfc'),
+    ('$PROFILES::common::normalization_form_nfkc', '$P::stubs::sp_nfkc'),
+    ('precis_core::stringclasses::get_derived_property_value', '$P::stubs::sp_dpv'),
+    ('precis_core::stringclasses::allowed_by_context_rule', '$P::stubs::sp_ctx_rule'),
+    ('$PROFILES::usernames::get_decomposition_mapping', '$P::stubs::sp_width'),
+    ('$PROFILES::common::is_space_separator', '$P::stubs::sp_is_space_separator'),
+    ('core::unicode::conversions::to_lower', '$P::stubs::sp_to_lower'),
+    ('core::unicode::unicode_data::lowercase::lookup', '$P::stubs::sp_lowercase_lookup'),
+] + [('precis_core::common::' + a, '$P::stubs::' + b) for a, b in [
+    ('is_virama', 'sp_virama'), ('is_greek', 'sp_greek'), ('is_hebrew', 'sp_hebrew'), ('is_hiragana', 'sp_hiragana'),
+    ('is_katakana', 'sp_katakana'), ('is_han', 'sp_han'), ('is_dual_joining', 'sp_dual'), ('is_left_joining', 'sp_left'),
+    ('is_right_joining', 'sp_right'), ('is_transparent', 'sp_transparent')]]
+STUBSETS['adv'] = [("<core::str::Chars<'_> as core::iter::Iterator>::advance_by", '$P::stubs::s_advance_by')]
+STUBSETS['chars'] = [("<core::str::Chars<'_> as core::iter::Iterator>::next", '$P::stubs::s_chars_next')]
+STUBSETS['pipe'] += STUBSETS['adv'] + STUBSETS['chars']
+STUBSETS['pipe4'] = [(t, r.replace('sp_nfc', 'sp_nfc4').replace('sp_nfkc', 'sp_nfkc4')) for t, r in STUBSETS['pipe']]
+STUBSETS['pipe12'] = [(t, r.replace('sp_nfc', 'sp_nfc12').replace('sp_nfkc', 'sp_nfkc12')) for t, r in STUBSETS['pipe']]
+STUBSETS['pipe_bidi'] = [('crate::bidi::bidi_class_cp', '$P::stubs::sp_bidi_class_cp')]
+
 STUB_DOC = {
+    'pipe4': 'S-PIPE with normalizer capacity 4 (strings of at most 1 input character); see S-PIPE',
+    'pipe12': 'S-PIPE with normalizer capacity 12 (strings of up to 3 input characters); see S-PIPE',
+    'chars': 'S-CHARS: <Chars as Iterator>::next replaced by an equivalent UTF-8 decoder that indexes the remaining bytes (valid UTF-8 is '
+             'guaranteed by &str); removes the raw-pointer iterator from every character loop',
+    'adv': 'S-ADV: Chars::advance_by (behind chars().nth(k)) replaced by its defining loop over next()',
+    'pipe': 'S-PIPE: every table/std/normalization dependency of the pipelines restricted to the closed 43-character witness alphabet '
+            'SIGMA_PIPE: derived property, context predicates, width, Zs (each discharged for every code point by the Layer A harnesses of '
+            'C14, C03, C11, C12), std to_lowercase/is_lowercase (evaluated natively on the alphabet), and a rule-based NFC/NFKC model '
+            'that gen.py compares with the real unicode-normalization crate on all 7,000,402 (string, form) pairs of SIGMA_PIPE^<=4; '
+            'the bodies of normalization_form_nfc/_nfkc (quick-check fast path) are outside reach',
+    'pipe_bidi': 'S-PIPE (Bidi): bidi_class_cp restricted to SIGMA_PIPE (discharged by c09_class_chunk_*)',
     'tools': 'S-FMT (format! returns an empty String), S-CP (ucd_parse::Codepoint::from_u32 is Ok for n <= 0x10FFFF, cutting the '
              'io::Error error path) and S-VEC (Vec::push without growth into vectors the harness pre-sizes; overflow = inconclusive)',
     'bidiw': 'S-BIDI-W: bidi::bidi_class_cp replaced by the UnicodeData 16.0.0 oracle restricted to one witness character per Bidi '
@@ -83,12 +114,13 @@ STUB_DOC = {
 }
 
 
+PROFILES_PATH = {'ext': 'precis_profiles', 'profiles': 'crate', 'tools': 'precis_profiles'}
 CRATE_PREFIX = {'ext': 'crate', 'profiles': 'crate::bidi::pv', 'tools': 'crate::generators::ucd_generator::pv'}
 
 
 class H:
     def __init__(self, prop, name, body, crate='ext', unwind=None, stubs=(), extra_stubs=(), tiers=('quick', 'thorough'),
-                 timeout=600, mem_gb=12, funcs=(), bound='', note='', expect_unsat_cover=(), memsafe='never', reach='thorough', unwindset=()):
+                 timeout=600, mem_gb=12, funcs=(), bound='', note='', expect_unsat_cover=(), memsafe='never', reach='thorough', unwindset=(), only_safety=False):
         self.prop = prop
         self.name = name
         self.body = body
@@ -106,6 +138,8 @@ class H:
         # per-loop bounds: [(regex on the mangled loop id, N)]; resolved against `cbmc --show-loops` on every run.
         # Loops that match nothing keep the #[kani::unwind] default; unwinding assertions stay on for all of them.
         self.unwindset = tuple(unwindset)
+        # C01 re-runs harness bodies of other properties: only their panic/overflow/index checks count for C01
+        self.only_safety = only_safety
         # pointer checks of std/stub code ('never' | 'thorough' | 'always'): /repo contains no unsafe code, so these
         # only re-check std; Rust-level panics (bounds, overflow, unwrap, str slicing) are assertion checks and stay on.
         self.memsafe = memsafe
@@ -134,7 +168,7 @@ class H:
             out.extend(STUBSETS[s])
         for t, r, _ in self.extra_stubs:
             out.append((t, r))
-        return [(t, r.replace('$P', pre)) for t, r in out]
+        return [(t.replace('$PROFILES', PROFILES_PATH[self.crate]), r.replace('$P', pre)) for t, r in out]
 
     def stub_docs(self):
         out = []
@@ -159,6 +193,12 @@ F14 = ['stringclasses::get_derived_property_value', 'IdentifierClass/FreeformCla
        'is_precis_ignorable_property, is_control, is_letter_digit, is_other_letter_digit, is_space, is_symbol, is_punctuation}',
        'generated precis_tables.rs (6.3.0)'] + F_SEARCH
 
+def pipe_us(n):
+    """per-loop bounds of the pipeline harnesses for strings of at most n input characters (outputs at most 2n)"""
+    m = 5 if n <= 1 else (9 if n <= 2 else 13)
+    return (('11normalize_m', m), ('13normalize_arr', m), ('5stubs4norm', m), ('6allows', 2 * n + 2))
+
+
 HARNESSES = [
     # ---------------------------------------------------------------- C18
     H('C18', 'c18_cmp_total', '$P::c18::cmp_total', funcs=F_CMP, timeout=300,
@@ -167,10 +207,10 @@ HARNESSES = [
       bound='loop-free; two entries with end1 < start2 and any cp, all 32-bit values: complete'),
 
     # ---------------------------------------------------------------- C13
-    H('C13', 'c13_stabilize_any_fn', '$P::c13::stabilize_any_fn', unwind=7, timeout=600,
+    H('C13', 'c13_stabilize_any_fn', '$P::c13::stabilize_any_fn', unwind=8, timeout=600,
       funcs=['precis_core::profile::stabilize', 'Cow<str> == Cow<str>', 'Cow::into_owned'],
       bound='f = any of the 6^5 functions on 5 distinct strings (next string or typed failure), any start, '
-            'unchanged results borrowed or owned; unwind 7 (loop 0..=3 and memcmp of <= 4 bytes)'),
+            'unchanged results borrowed or owned, changed results owned or a borrowed prefix of the input; unwind 8'),
 
     # ---------------------------------------------------------------- C12
     H('C12', 'c12_one_char', '$P::c12::one_char', unwind=5, stubs=('str',), timeout=600,
@@ -476,7 +516,115 @@ HARNESSES = [
     H('C15', 'c15_width_collect', '$P::c15::width_collect', crate='tools', unwind=3, stubs=('tools',), timeout=600,
       funcs=['WidthMappingTableGen::process_entry'],
       bound='one entry, any code point, any mapping, tags none/wide/narrow/compat/font'),
+    # ---------------------------------------------------------------- C05 / C06 / C07 / C08 / C16 (Freeform profiles, external crate)
+    H('C05', 'c05_opaque_prepare_n1', '$P::pipe::opaque::<1, 4, 4, false, _>', unwind=5, stubs=('str', 'pipe4'), unwindset=pipe_us(1), timeout=1500, mem_gb=16,
+      funcs=['Profile::prepare/enforce of OpaqueString', 'OpaqueString::additional_mapping_rule', 'StringClass::allows + context dispatch'], bound='strings of 0..=1 characters over SIGMA_PIPE (43 witnesses, closed under all pipeline operations)'),
+    H('C05', 'c05_opaque_enforce_n1', '$P::pipe::opaque::<1, 4, 4, true, _>', unwind=5, stubs=('str', 'pipe4'), unwindset=pipe_us(1), timeout=1500, mem_gb=16,
+      funcs=['Profile::prepare/enforce of OpaqueString', 'OpaqueString::additional_mapping_rule', 'StringClass::allows + context dispatch'], bound='strings of 0..=1 characters over SIGMA_PIPE (43 witnesses, closed under all pipeline operations)'),
+    H('C05', 'c05_opaque_prepare_n2', '$P::pipe::opaque::<2, 8, 6, false, _>', unwind=8, stubs=('str', 'pipe'), unwindset=pipe_us(2), tiers=T, timeout=3500, mem_gb=44,
+      funcs=['Profile::prepare/enforce of OpaqueString', 'OpaqueString::additional_mapping_rule', 'StringClass::allows + context dispatch'], bound='strings of 0..=2 characters over SIGMA_PIPE (43 witnesses, closed under all pipeline operations)'),
+    H('C05', 'c05_opaque_enforce_n2', '$P::pipe::opaque::<2, 8, 6, true, _>', unwind=8, stubs=('str', 'pipe'), unwindset=pipe_us(2), tiers=T, timeout=3500, mem_gb=44,
+      funcs=['Profile::prepare/enforce of OpaqueString', 'OpaqueString::additional_mapping_rule', 'StringClass::allows + context dispatch'], bound='strings of 0..=2 characters over SIGMA_PIPE (43 witnesses, closed under all pipeline operations)'),
+    H('C05', 'c05_binding', '$P::pipe::binding_freeform', unwind=8, stubs=('str', 'pipe'), unwindset=pipe_us(2), timeout=900,
+      funcs=['Rules methods of OpaqueString and Nickname (bindings and defaults)'], bound='concrete witnesses (binding of each rule)'),
+    H('C06', 'c06_nickname_prepare_n1', '$P::pipe::nickname::<1, 4, 4, false, _>', unwind=5, stubs=('str', 'pipe4'), unwindset=pipe_us(1), timeout=1500, mem_gb=16,
+      funcs=['Profile::prepare/enforce of Nickname', 'Nickname::apply_prepare_rules/apply_enforce_rules', 'profile::stabilize', 'nicknames::trim_spaces/find_disallowed_space', 'StringClass::allows'], bound='strings of 0..=1 characters over SIGMA_PIPE'),
+    H('C06', 'c06_nickname_enforce_n1', '$P::pipe::nickname::<1, 4, 4, true, _>', unwind=5, stubs=('str', 'pipe4'), unwindset=pipe_us(1), timeout=1500, mem_gb=34,
+      funcs=['Profile::prepare/enforce of Nickname', 'Nickname::apply_prepare_rules/apply_enforce_rules', 'profile::stabilize', 'nicknames::trim_spaces/find_disallowed_space', 'StringClass::allows'], bound='strings of 0..=1 characters over SIGMA_PIPE'),
+    H('C06', 'c06_nickname_prepare_n2', '$P::pipe::nickname::<2, 8, 6, false, _>', unwind=8, stubs=('str', 'pipe'), unwindset=pipe_us(2), tiers=T, timeout=3500, mem_gb=44,
+      funcs=['Profile::prepare/enforce of Nickname', 'Nickname::apply_prepare_rules/apply_enforce_rules', 'profile::stabilize', 'nicknames::trim_spaces/find_disallowed_space', 'StringClass::allows'], bound='strings of 0..=2 characters over SIGMA_PIPE'),
+    H('C06', 'c06_nickname_enforce_n2', '$P::pipe::nickname::<2, 8, 6, true, _>', unwind=8, stubs=('str', 'pipe'), unwindset=pipe_us(2), tiers=T, timeout=3500, mem_gb=44,
+      funcs=['Profile::prepare/enforce of Nickname', 'Nickname::apply_prepare_rules/apply_enforce_rules', 'profile::stabilize', 'nicknames::trim_spaces/find_disallowed_space', 'StringClass::allows'], bound='strings of 0..=2 characters over SIGMA_PIPE'),
+    H('C06', 'c06_nickname_rounds', '$P::pipe::nickname_rounds', unwind=10, stubs=('str', 'pipe'), unwindset=pipe_us(2), timeout=900,
+      funcs=['Profile::prepare/enforce of Nickname', 'Nickname::apply_prepare_rules/apply_enforce_rules', 'profile::stabilize', 'nicknames::trim_spaces/find_disallowed_space', 'StringClass::allows'], bound='the concrete input "a\\u00b4", whose NFKC form introduces a space (second round needed)'),
+    H('C07', 'c07_compare_opaque_n1', '$P::pipe::compare_opaque::<1, 4, 4, _>', unwind=5, stubs=('str', 'pipe4'), unwindset=pipe_us(1), timeout=1500, mem_gb=16,
+      funcs=['OpaqueString::compare', 'OpaqueString::enforce'], bound='all pairs of strings of 0..=1 characters over SIGMA_PIPE'),
+    H('C07', 'c07_compare_nickname_n1', '$P::pipe::compare_nickname::<1, 4, 4, _>', unwind=5, stubs=('str', 'pipe4'), unwindset=pipe_us(1), timeout=1500, mem_gb=20,
+      funcs=['Nickname::compare', 'Nickname::apply_compare_rules', 'profile::stabilize', 'common::case_mapping_rule'],
+      bound='all pairs of strings of 0..=1 characters over SIGMA_PIPE'),
+    H('C07', 'c07_compare_opaque_n2', '$P::pipe::compare_opaque::<2, 8, 6, _>', unwind=8, stubs=('str', 'pipe'), unwindset=pipe_us(2), tiers=T, timeout=3500, mem_gb=44,
+      funcs=['OpaqueString::compare', 'OpaqueString::enforce'], bound='all pairs of strings of 0..=2 characters over SIGMA_PIPE'),
+    H('C07', 'c07_compare_nickname_n2', '$P::pipe::compare_nickname::<2, 8, 6, _>', unwind=8, stubs=('str', 'pipe'), unwindset=pipe_us(2), tiers=T, timeout=3500, mem_gb=44,
+      funcs=['Nickname::compare', 'Nickname::apply_compare_rules', 'profile::stabilize', 'common::case_mapping_rule'],
+      bound='all pairs of strings of 0..=2 characters over SIGMA_PIPE'),
+    H('C08', 'c08_no_drift_freeform_n1', '$P::pipe::no_drift_freeform::<1, 4, 4, _>', unwind=5, stubs=('str', 'pipe4'), unwindset=pipe_us(1), timeout=1500, mem_gb=16,
+      funcs=['OpaqueString::enforce', 'Nickname::enforce', 'FreeformClass::get_value_from_char'],
+      bound='strings of 0..=1 characters over SIGMA_PIPE, both Freeform profiles'),
+    H('C08', 'c08_no_drift_freeform_n2', '$P::pipe::no_drift_freeform::<2, 8, 6, _>', unwind=8, stubs=('str', 'pipe'), unwindset=pipe_us(2), tiers=T, timeout=3500, mem_gb=44,
+      funcs=['OpaqueString::enforce', 'Nickname::enforce', 'FreeformClass::get_value_from_char'],
+      bound='strings of 0..=2 characters over SIGMA_PIPE, both Freeform profiles'),
+    H('C16', 'c16_api_forms_freeform_n1', '$P::pipe::api_forms_freeform::<1, 4, 4, _>', unwind=5, stubs=('str', 'pipe4', 'once'), unwindset=pipe_us(1), timeout=1500, mem_gb=16,
+      funcs=['PrecisFastInvocation::{prepare, enforce} of OpaqueString and Nickname (lazy_static singletons)', 'Profile::{prepare, enforce}', 'Into<Cow<str>> for &str / String / Cow'],
+      bound='strings of 0..=1 characters over SIGMA_PIPE; both Freeform profiles; prepare and enforce; one arbitrary earlier call'),
+    H('C16', 'c16_api_forms_freeform_n2', '$P::pipe::api_forms_freeform::<2, 8, 6, _>', unwind=8, stubs=('str', 'pipe', 'once'), unwindset=pipe_us(2), tiers=T, timeout=3500, mem_gb=44,
+      funcs=['PrecisFastInvocation::{prepare, enforce} of OpaqueString and Nickname (lazy_static singletons)', 'Profile::{prepare, enforce}', 'Into<Cow<str>> for &str / String / Cow'],
+      bound='strings of 0..=2 characters over SIGMA_PIPE; both Freeform profiles; prepare and enforce; one arbitrary earlier call'),
+    # ---------------------------------------------------------------- C04 + username parts of C07 / C08 / C16 (in-crate: precis-profiles)
+    H('C04', 'c04_username_mapped_prepare_n1', '$P::pipe_user::username::<1, 4, 4, true, false, _>', crate='profiles', unwind=5, stubs=('str', 'pipe4', 'pipe_bidi'), unwindset=pipe_us(1), timeout=1500, mem_gb=16,
+      funcs=['Profile::prepare/enforce of UsernameCaseMapped and UsernameCasePreserved', 'usernames::width_mapping_rule', 'usernames::directionality_rule', 'bidi::has_rtl/satisfy_bidi_rule', 'common::case_mapping_rule', 'IdentifierClass::allows + context dispatch'], bound='strings of 0..=1 characters over SIGMA_PIPE (43 witnesses), both username profiles'),
+    H('C04', 'c04_username_preserved_prepare_n1', '$P::pipe_user::username::<1, 4, 4, false, false, _>', crate='profiles', unwind=5, stubs=('str', 'pipe4', 'pipe_bidi'), unwindset=pipe_us(1), timeout=1500, mem_gb=16,
+      funcs=['Profile::prepare/enforce of UsernameCaseMapped and UsernameCasePreserved', 'usernames::width_mapping_rule', 'usernames::directionality_rule', 'bidi::has_rtl/satisfy_bidi_rule', 'common::case_mapping_rule', 'IdentifierClass::allows + context dispatch'], bound='strings of 0..=1 characters over SIGMA_PIPE (43 witnesses), both username profiles'),
+    H('C04', 'c04_username_mapped_enforce_n1', '$P::pipe_user::username::<1, 4, 4, true, true, _>', crate='profiles', unwind=5, stubs=('str', 'pipe4', 'pipe_bidi'), unwindset=pipe_us(1), timeout=1500, mem_gb=24,
+      funcs=['Profile::prepare/enforce of UsernameCaseMapped and UsernameCasePreserved', 'usernames::width_mapping_rule', 'usernames::directionality_rule', 'bidi::has_rtl/satisfy_bidi_rule', 'common::case_mapping_rule', 'IdentifierClass::allows + context dispatch'], bound='strings of 0..=1 characters over SIGMA_PIPE (43 witnesses), both username profiles'),
+    H('C04', 'c04_username_preserved_enforce_n1', '$P::pipe_user::username::<1, 4, 4, false, true, _>', crate='profiles', unwind=5, stubs=('str', 'pipe4', 'pipe_bidi'), unwindset=pipe_us(1), timeout=1500, mem_gb=24,
+      funcs=['Profile::prepare/enforce of UsernameCaseMapped and UsernameCasePreserved', 'usernames::width_mapping_rule', 'usernames::directionality_rule', 'bidi::has_rtl/satisfy_bidi_rule', 'common::case_mapping_rule', 'IdentifierClass::allows + context dispatch'], bound='strings of 0..=1 characters over SIGMA_PIPE (43 witnesses), both username profiles'),
+    H('C04', 'c04_username_mapped_prepare_n2', '$P::pipe_user::username::<2, 8, 6, true, false, _>', crate='profiles', unwind=8, stubs=('str', 'pipe', 'pipe_bidi'), unwindset=pipe_us(2), tiers=T, timeout=3500, mem_gb=44,
+      funcs=['Profile::prepare/enforce of UsernameCaseMapped and UsernameCasePreserved', 'usernames::width_mapping_rule', 'usernames::directionality_rule', 'bidi::has_rtl/satisfy_bidi_rule', 'common::case_mapping_rule', 'IdentifierClass::allows + context dispatch'], bound='strings of 0..=2 characters over SIGMA_PIPE (43 witnesses), both username profiles'),
+    H('C04', 'c04_username_preserved_prepare_n2', '$P::pipe_user::username::<2, 8, 6, false, false, _>', crate='profiles', unwind=8, stubs=('str', 'pipe', 'pipe_bidi'), unwindset=pipe_us(2), tiers=T, timeout=3500, mem_gb=44,
+      funcs=['Profile::prepare/enforce of UsernameCaseMapped and UsernameCasePreserved', 'usernames::width_mapping_rule', 'usernames::directionality_rule', 'bidi::has_rtl/satisfy_bidi_rule', 'common::case_mapping_rule', 'IdentifierClass::allows + context dispatch'], bound='strings of 0..=2 characters over SIGMA_PIPE (43 witnesses), both username profiles'),
+    H('C04', 'c04_username_mapped_enforce_n2', '$P::pipe_user::username::<2, 8, 6, true, true, _>', crate='profiles', unwind=8, stubs=('str', 'pipe', 'pipe_bidi'), unwindset=pipe_us(2), tiers=T, timeout=3500, mem_gb=44,
+      funcs=['Profile::prepare/enforce of UsernameCaseMapped and UsernameCasePreserved', 'usernames::width_mapping_rule', 'usernames::directionality_rule', 'bidi::has_rtl/satisfy_bidi_rule', 'common::case_mapping_rule', 'IdentifierClass::allows + context dispatch'], bound='strings of 0..=2 characters over SIGMA_PIPE (43 witnesses), both username profiles'),
+    H('C04', 'c04_username_preserved_enforce_n2', '$P::pipe_user::username::<2, 8, 6, false, true, _>', crate='profiles', unwind=8, stubs=('str', 'pipe', 'pipe_bidi'), unwindset=pipe_us(2), tiers=T, timeout=3500, mem_gb=44,
+      funcs=['Profile::prepare/enforce of UsernameCaseMapped and UsernameCasePreserved', 'usernames::width_mapping_rule', 'usernames::directionality_rule', 'bidi::has_rtl/satisfy_bidi_rule', 'common::case_mapping_rule', 'IdentifierClass::allows + context dispatch'], bound='strings of 0..=2 characters over SIGMA_PIPE (43 witnesses), both username profiles'),
+    H('C04', 'c04_binding', '$P::pipe_user::binding_username', crate='profiles', unwind=8, stubs=('str', 'pipe', 'pipe_bidi'), unwindset=pipe_us(2), timeout=900,
+      funcs=['Rules methods of both username profiles (bindings and defaults)'], bound='concrete witnesses (binding of each rule)'),
+    H('C07', 'c07_compare_username_n1', '$P::pipe_user::compare_username::<1, 4, 4, _>', crate='profiles', unwind=5, stubs=('str', 'pipe4', 'pipe_bidi'), unwindset=pipe_us(1), timeout=1500, mem_gb=20,
+      funcs=['UsernameCaseMapped::compare', 'UsernameCasePreserved::compare', 'enforce of both'], bound='all pairs of strings of 0..=1 characters over SIGMA_PIPE, both username profiles'),
+    H('C07', 'c07_compare_username_n2', '$P::pipe_user::compare_username::<2, 8, 6, _>', crate='profiles', unwind=8, stubs=('str', 'pipe', 'pipe_bidi'), unwindset=pipe_us(2), tiers=T, timeout=3500, mem_gb=44,
+      funcs=['UsernameCaseMapped::compare', 'UsernameCasePreserved::compare', 'enforce of both'], bound='all pairs of strings of 0..=2 characters over SIGMA_PIPE'),
+    H('C08', 'c08_no_drift_username_n1', '$P::pipe_user::no_drift_username::<1, 4, 4, _>', crate='profiles', unwind=5, stubs=('str', 'pipe4', 'pipe_bidi'), unwindset=pipe_us(1), timeout=1500, mem_gb=16,
+      funcs=['UsernameCaseMapped::enforce', 'UsernameCasePreserved::enforce', 'IdentifierClass::get_value_from_char'],
+      bound='strings of 0..=1 characters over SIGMA_PIPE, both username profiles'),
+    H('C08', 'c08_no_drift_username_n2', '$P::pipe_user::no_drift_username::<2, 8, 6, _>', crate='profiles', unwind=8, stubs=('str', 'pipe', 'pipe_bidi'), unwindset=pipe_us(2), tiers=T, timeout=3500, mem_gb=44,
+      funcs=['UsernameCaseMapped::enforce', 'UsernameCasePreserved::enforce', 'IdentifierClass::get_value_from_char'],
+      bound='strings of 0..=2 characters over SIGMA_PIPE, both username profiles'),
+    H('C16', 'c16_api_forms_username_n1', '$P::pipe_user::api_forms_username::<1, 4, 4, _>', crate='profiles', unwind=5, stubs=('str', 'pipe4', 'pipe_bidi', 'once'), unwindset=pipe_us(1), timeout=1500, mem_gb=16,
+      funcs=['PrecisFastInvocation::{prepare, enforce} of both username profiles (lazy_static singletons)', 'Profile::{prepare, enforce}'],
+      bound='strings of 0..=1 characters over SIGMA_PIPE; both username profiles; prepare and enforce'),
+    H('C16', 'c16_api_forms_username_n2', '$P::pipe_user::api_forms_username::<2, 8, 6, _>', crate='profiles', unwind=8, stubs=('str', 'pipe', 'pipe_bidi', 'once'), unwindset=pipe_us(2), tiers=T, timeout=3500, mem_gb=44,
+      funcs=['PrecisFastInvocation::{prepare, enforce} of both username profiles (lazy_static singletons)', 'Profile::{prepare, enforce}'],
+      bound='strings of 0..=2 characters over SIGMA_PIPE; both username profiles; prepare and enforce'),
+    # ---------------------------------------------------------------- C08 (i)
+    H('C08', 'c08_casemap_targets', '$P::c08::casemap_targets', unwind=5, unwindset=(('16binary_search_by', 13), ('8try_fold', 4), ('18try_from_fn_erased', 4)), timeout=1500, mem_gb=16,
+      funcs=['char::to_lowercase (real std tables: the mapping applied after validation by UsernameCaseMapped::enforce and the Nickname comparison rules)'],
+      bound='every Unicode scalar value (complete); derived properties from the 6.3.0 oracle (C14)'),
 ]
+
+# ---------------------------------------------------------------- C01 = dedicated harness + designated re-runs
+def _c01(src, tiers=Q, **kw):
+    h = by_name(src)
+    n = H('C01', 'c01_' + src.split('_', 1)[1], h.body, crate=h.crate, unwind=h.unwind, stubs=h.stubs, tiers=tiers, timeout=h.timeout,
+          mem_gb=h.mem_gb, funcs=h.funcs, bound=h.bound + ' [panic/overflow/index/str-boundary checks only]',
+          unwindset=h.unwindset, only_safety=True, expect_unsat_cover=h.expect_unsat_cover, **kw)
+    return n
+
+
+def by_name(name):
+    for h in HARNESSES:
+        if h.name == name:
+            return h
+    return None
+
+
+HARNESSES.append(H('C01', 'c01_ctx_rules_n3', '$P::c01::ctx_rules::<3, 12, _>', unwind=6, stubs=('ctx',), timeout=1500, mem_gb=16,
+                   funcs=['all nine context::rule_* functions', 'context::get_context_rule'],
+                   bound='labels of 0..=3 characters, every character any Unicode scalar value; offset ANY usize; any rule'))
+for _src, _t in [('c14_pairing', Q), ('c14_pred_is_space', Q), ('c14_pred_is_unassigned', Q), ('c02_any_class_n4', Q),
+                 ('c12_nick_map_n3', Q), ('c12_opaque_map_n3', Q), ('c11_width_map_n3', Q), ('c10_case_sigma_n3', Q),
+                 ('c13_stabilize_any_fn', Q), ('c05_opaque_enforce_n1', Q), ('c06_nickname_enforce_n1', Q), ('c04_username_mapped_enforce_n1', Q),
+                 ('c07_compare_nickname_n1', Q), ('c09_bidi_rule_n4', Q),
+                 ('c12_nick_map_n5', T), ('c12_opaque_map_n5', T), ('c02_any_class_n6', T), ('c06_nickname_enforce_n2', T), ('c04_username_mapped_enforce_n2', T)]:
+    HARNESSES.append(_c01(_src, _t))
 
 PROPS = ['C%02d' % i for i in range(1, 19)]
 
